@@ -116,7 +116,7 @@ pub fn c08(args: Args) {
         "random concurrent write histories on 2-3 real replicas (same-uuid creates, same-name creates, concurrent edits of single- and multi-valued attributes, deletes racing edits, membership changes, revive) with skewed simulated clocks and a random schedule of pairwise incremental replications and occasional refresh, then a full mesh to quiescence; at quiescence the normalised dumps (all live, recycled, conflict entries with attribute values and change state; tombstones compared when present on both) must be identical; non-trivial = history with writes accepted on >= 2 replicas and >= 1 replication before the end; distinct by full op list");
     run.assume("tombstones reaped on one replica only (local changelog trim) are not compared; created_at_cid / last_modified_cid are local summaries and excluded");
     let prof = Profile {
-        replicas_min: 2, replicas_max: 3, file_backed: false, ops_min: 12, ops_max: 60, prefill: 0, long_gaps_when_replicated: false, level: kanidmd_lib::constants::DOMAIN_TGT_LEVEL, unique_names: true, home_creates: true, skewed_quarters: 2, late_joiner: false,
+        replicas_min: 2, replicas_max: 3, file_backed: false, ops_min: 12, ops_max: 60, prefill: 0, long_gaps_when_replicated: false, level: kanidmd_lib::constants::DOMAIN_TGT_LEVEL, unique_names: true, home_creates: true, skewed_quarters: 2, late_joiner: false, revive_pairs: false,
         pop: Pop { persons: 3, services: 1, groups: 3, dyngroups: 1, oauths: 1, certs: 1, names: 4 },
         w: Weights { create: 34, create_pair: 3, rename: 10, set_desc: 14, add_member: 14, rem_member: 6, set_manager: 4, scope_map: 4, delete: 9, revive: 5, dyn_filter: 2,
             advance_small: 8, repl: 18, abort: 2, ..Default::default() },
